@@ -11,7 +11,8 @@ THEOREMS = ["WM.C11.sorted", "WM.C11.active_iff", "WM.C11.refine_next", "WM.C11.
             "WM.C11.reset", "WM.C11.wf_preserved", "WM.C11.constructors_wf", "WM.C11.multi_constructor_wf",
             "WM.C11.aunion_constructor_wf",
             "WM.C11.replace0", "WM.C11.all_ids_base", "WM.C11.all_ids", "WM.C11.all_ids_fresh",
-            "WM.C11.all_ids_pre_preserved", "WM.C11.program", "WM.C11.program_replace"]
+            "WM.C11.all_ids_pre_preserved", "WM.C11.program", "WM.C11.program_replace",
+            "WM.C11.reads_move_alike", "WM.C11.reads_wf", "WM.C11.read_next", "WM.C11.read_skipTo", "WM.C11.program_reads"]
 PARTIAL = {"WM.C11.all_ids": "the overriding all_ids() of ListMatcher, IntersectionMatcher (also behind RequireMatcher), "
                              "WrappingMatcher/ConstantScoreWrapperMatcher, FilterMatcher, MultiMatcher are modelled (allIdsO) and "
                              "proved to yield, in any state, an ascending list between the remaining and the complete ids, "
@@ -24,17 +25,23 @@ PARTIAL = {"WM.C11.all_ids": "the overriding all_ids() of ListMatcher, Intersect
                              "Union, DisjunctionMax, Intersection, AndNot, AndMaybe, Require, boost, Filter, Inverse, ConstantScore, "
                              "MultiMatcher (sub-matchers of one class) and ArrayUnionMatcher (sub-matchers of one class, positive "
                              "scores); PreloadedUnionMatcher is modelled and differentially tested only; span matchers, "
-                             "SingleTermMatcher, CoordMatcher, nested-document matchers are not modelled; (2) reads - id() and "
-                             "score() (and is_active) are proved position-dependent only; weight(), value(), spans(), "
-                             "matching_terms() are not in the model's operation table and not compared by the harness; (3) commands - "
+                             "SingleTermMatcher, CoordMatcher, nested-document matchers are not modelled; (2) reads - id(), score(), "
+                             "is_active(), and since round 3 weight() and the number of matching_terms() (program_reads: every "
+                             "shape without ArrayUnion nodes, which support neither read; the reads' invariant WFR is derived from WF "
+                             "for shapes without MultiMatcher nodes - reads_wf - and is an assumption for a MultiMatcher) are proved "
+                             "to depend on the list position only; value(), spans() and the *set* of matching terms are not in the "
+                             "model: the harness compares them between visits of the same entry on the real objects; (3) commands - "
                              "next/skip_to/reset here, next/skip_to/replace() in program_replace; skip_to_quality(0) and copy() are "
                              "not commands of the path-independence theorems (copy is the identity on model values); (4) "
                              "ListMatcher without weights (weights=None) and a W3 posting list with no block are outside WF"}
-RULE = ("matcher trees (depth <= 3, MultiMatcher nodes included) over ListMatchers and over real W3LeafMatchers written with "
+RULE = ("reads stream: programs of 14 next/skip_to/reset calls, (id, weight, number of matching terms) after every call against "
+        "the Lean reads model, value()/spans()/matching terms compared between visits of an entry; "
+        "matcher trees (depth <= 3, MultiMatcher nodes included) over ListMatchers and over real W3LeafMatchers written with "
         "W3Codec(blocklimit 1..4), ArrayUnion/PreloadedUnion roots; adaptive programs of <= 60 operations; non-trivial = the tree has a "
         "composite node and the program contains a skip_to/skip_to_quality/replace that moved the matcher, "
         "or (error stream) an operation on an exhausted matcher; distinct = distinct (tree, program)")
-ASSUMPTIONS = ["Python float arithmetic on the dyadic weights/boosts used by the exact streams is exact",
+ASSUMPTIONS = ["matching_terms(): the ListMatchers of the streams carry a term (ListMatcher(term=None) yields nothing)",
+               "Python float arithmetic on the dyadic weights/boosts used by the exact streams is exact",
                "MultiMatcher: all sub-matchers of one class; its score() (global scorer on the current weight) equals the "
                "current sub-matcher's score (WeightScorer/Frequency in the streams)",
                "UnionMatcher._id is a pure memo of id() (not modelled; a stale memo shows as a divergence)"]
@@ -434,6 +441,138 @@ def combo_e2e(ctx, pid, n, quality):
                           d, res[1], "ArrayUnionMatcher contradicts the list model: " + res[0])
 
 
+# ------------------------------------------------------------------------------------------------
+# the other reads of an entry: weight() and matching_terms() against the Lean model (`c11 reads`, theorems
+# reads_* / program_reads: they are functions of the list position); value(), spans() and the *set* of matching
+# terms are outside the model and are compared for path independence on the real object
+
+SIG_INVERSE_VALUE = "InverseMatcher.value()/spans():reads-the-child-which-is-never-on-the-document"
+SIG_READS = {"weight": "Matcher.weight()", "terms": "Matcher.matching_terms()"}
+
+
+def _read_obs(m):
+    if not m.is_active():
+        return "(0)"
+    try:
+        nt = str(len(list(m.matching_terms())))
+    except Exception as e:  # noqa
+        nt = G.err_name(e)
+    return "(%s %s %s)" % (G.guarded(m.id), G.guarded(m.weight), nt)
+
+
+def _aux_reads(m):
+    def val():
+        v = m.value()
+        return v.hex() if isinstance(v, bytes) else repr(v)
+    return (G.guarded(val, conv=str), G.guarded(lambda: repr(m.spans()), conv=str),
+            G.guarded(lambda: repr(sorted(m.matching_terms())), conv=str))
+
+
+def _reads_case(args):
+    seed, mode, kinds, depth, nops = args
+    t, spec = make_case(seed, mode, kinds, depth)
+    rix = G.RealIndex(spec) if spec else None
+    try:
+        text = G.tree_sexp(t, rix)
+        base = dict(seed=seed, mode=mode, kinds=kinds, depth=depth, nops=nops, tree=text, root=t[0],
+                    nodes=sorted(G.tree_kinds(t)), size=G.tree_size(t), aux=None)
+        try:
+            m = G.build_real(t, rix)
+        except Exception as e:  # noqa
+            return dict(base, ops=[], impl=["(%s)" % G.err_name(e)])
+        rng = random.Random(seed ^ 0x7EAD)
+        ops, out, seen, aux = [], [_read_obs(m)], {}, None
+
+        def look():
+            if m.is_active():
+                a, i = _aux_reads(m), m.id()
+                if seen.setdefault(i, a) != a:
+                    return {"id": i, "first": seen[i], "now": a}
+            return None
+        aux = look()
+        for _ in range(nops):
+            if m.is_active():
+                k = rng.random()
+                if k < 0.5:
+                    op = ("next",)
+                elif k < 0.85:
+                    op = ("skip", max(0, m.id() + rng.choice([-2, 0, 1, 2, 3, 6])))
+                else:
+                    op = ("reset",)
+            else:
+                op = ("reset",)
+            ops.append(op)
+            try:
+                with G.watchdog():
+                    m = G.apply_real(m, {}, op)
+            except G.Hang:
+                out.append("(!HANG)")
+                break
+            except Exception as e:  # noqa
+                out.append("(%s)" % G.err_name(e))
+                break
+            out.append(_read_obs(m))
+            aux = aux or look()
+        return dict(base, ops=[G.op_sexp(o) for o in ops], impl=out, aux=aux)
+    finally:
+        if rix:
+            rix.close()
+
+
+def _reads_mismatch(model, impl):
+    """first differing observation and which read differs"""
+    for j, (a, b) in enumerate(zip(model, impl)):
+        if a != b:
+            fa, fb = a.strip("()").split(" "), b.strip("()").split(" ")
+            if len(fa) == 3 and len(fb) == 3 and fa[0] == fb[0]:
+                which = "weight" if fa[1] != fb[1] else "terms"
+                how = "raises " + fb[1 if which == "weight" else 2] if "!" in fb[1 if which == "weight" else 2] else "wrong value"
+                return j, which, how
+            return j, "cursor", "position"
+    return min(len(model), len(impl)), "cursor", "length"
+
+
+def reads_stream(ctx, name, mode, n, kinds, depth, nops=14):
+    rng = ctx.rng("reads:" + name)
+    jobs = [(rng.getrandbits(48), mode, kinds, depth, nops) for _ in range(n)]
+    cases = ctx.pmap(_reads_case, jobs, chunksize=max(1, n // 64))
+    replies = ctx.driver.ask(["c11 reads %s (%s)" % (c["tree"], " ".join(c["ops"])) for c in cases])
+    for c, rep in zip(cases, replies):
+        impl = "(" + " ".join(c["impl"]) + ")"
+        ctx.case(("reads", c["tree"], tuple(c["ops"])), nontrivial=c["size"] > 1 and len(set(c["impl"])) > 2)
+        ctx.stat("reads:%s:cases" % name)
+        for k in c["nodes"]:
+            ctx.stat("reads:node:" + k)
+        case = {"stream": "reads", "seed": c["seed"], "mode": c["mode"], "kinds": c["kinds"], "depth": c["depth"],
+                "nops": c["nops"], "tree": c["tree"], "ops": c["ops"]}
+        if c["aux"] is not None:
+            a, b = c["aux"]["first"], c["aux"]["now"]
+            # classified: an InverseMatcher hands value()/spans() to its child, which is never on the document
+            leak = "inverse" in c["nodes"] and a[2] == b[2] and (a[0] != b[0] or a[1] != b[1])
+            ctx.violation(SIG_INVERSE_VALUE if leak else
+                          "C11:value()/spans()/matching_terms() depend on the path:%s" % c["root"], case,
+                          c["aux"]["first"], c["aux"]["now"], "a read of the entry %d differs between two visits" % c["aux"]["id"])
+        if rep != impl:
+            if rep == "bad-op" or "NotImplementedError" in rep:
+                ctx.stat("reads:unsupported-by-model")       # ArrayUnion below a MultiMatcher etc.: not covered
+                continue
+            j, which, how = _reads_mismatch(rep[1:-1].replace(") (", ")|(").split("|"), c["impl"])
+            if which == "cursor":
+                ctx.divergence("matcher-reads:" + name, case, rep, impl)
+            else:
+                ctx.violation("C11:%s %s:%s" % (SIG_READS[which], how, "+".join(c["nodes"][:4])), dict(case, at=j), rep, impl,
+                              "%s on an entry contradicts the list of (id, read) entries (Lean denR)" % SIG_READS[which])
+
+
+def replay_reads(ctx, case):
+    c = _reads_case((case["seed"], case["mode"], case["kinds"], case["depth"], case.get("nops", 14)))
+    rep = ctx.driver.ask1("c11 reads %s (%s)" % (c["tree"], " ".join(c["ops"])))
+    impl = "(" + " ".join(c["impl"]) + ")"
+    if c["aux"] is not None:
+        return ("reads depend on the path", c["aux"])
+    return None if rep == impl else ("reads differ from the model", {"model": rep, "impl": impl})
+
+
 def run(ctx):
     corpus_replay(ctx, "C11")
     n = ctx.budget(3000, 36000)
@@ -449,6 +588,11 @@ def run(ctx):
     end_to_end(ctx, "mixed", "mixed", n // 4, KINDS_ALL, 3)
     extra_stream(ctx, "C11", n // 4, quality=False)
     combo_e2e(ctx, "C11", n // 6, quality=False)
+    reads_kinds = [k for k in KINDS_ALL]
+    reads_stream(ctx, "list", "list", n // 3, reads_kinds, 3)
+    reads_stream(ctx, "w3", "w3", n // 8, reads_kinds, 3)
+    reads_stream(ctx, "mixed", "mixed", n // 8, reads_kinds, 2)
+    reads_stream(ctx, "multi", "mixed", n // 12, ["multi", "multi", "andmaybe", "union", "inter"], 2)
     if ctx.divergences:
         # a broken correspondence: spend more of the budget looking for a failing input
         end_to_end(ctx, "list-extra", "list", n // 2, KINDS_ALL, 3)
@@ -489,7 +633,9 @@ def replay_common(ctx, rec, quality):
 def replay(ctx, rec):
     case = rec.get("case", {})
     res = replay_common(ctx, rec, False)
-    if res == "other":
+    if res == "other" and case.get("stream") == "reads":
+        res = replay_reads(ctx, case)
+    elif res == "other":
         if "mode" in case and "seed" in case:
             text = _e2e_prepare((case["seed"], case["mode"], case["kinds"], case["depth"]))
             res = _e2e_run((case["seed"], case["mode"], case["kinds"], case["depth"], ctx.driver.ask1("c11 den " + text)))
@@ -521,9 +667,11 @@ MANIFEST = {
                   "scores and boost (otherwise the class drops documents), float accumulation not modelled; span and nested matchers and CoordMatcher are not in the Lean model "
                   "(CoordMatcher is walked end-to-end in C12); MultiMatcher: sub-matchers of one class, score() = the current "
                   "sub-matcher's score (global and per-segment scorer agree); copy() is the identity on model values, "
-                  "independence of copies is checked on the real objects; UnionMatcher._id memo not modelled; weight(), value(), "
-                  "spans(), matching_terms()/term_matchers() and the Boolean results of next()/skip_to() are neither modelled nor "
-                  "compared (compared after every operation: is_active, id, score, supports_block_quality, block_quality, "
+                  "independence of copies is checked on the real objects; UnionMatcher._id memo not modelled; weight() and the number "
+                  "of matching_terms() are modelled (WM/Model/MatcherReads.lean), proved position-dependent only (program_reads) and "
+                  "compared after every operation of the reads stream; value(), spans() and the set of matching terms are compared "
+                  "between visits of the same entry on the real objects only; term_matchers() and the Boolean results of "
+                  "next()/skip_to() are neither modelled nor compared (compared after every operation of the cursor programs: is_active, id, score, supports_block_quality, block_quality, "
                   "max_quality; on request all_ids); path independence (program, program_replace) covers next/skip_to/reset and "
                   "next/skip_to/replace() - skip_to_quality/replace(q) are not path independent by design (C12). "
                   "Trusted: Lean kernel and compiled driver, the hand-written model (sampled correspondence, not proved), "
